@@ -1406,6 +1406,47 @@ def site_chash(site, key):
     return chash(select(fn, site.get("select", "function")))
 
 
+def nth_if(fn, nth):
+    """the N-th IfStmt of the function (source order) as (condition, then, else-or-None)"""
+    body = [c for c in fn["inner"] if c.get("kind") == "CompoundStmt"][0]
+    i = 0
+    for n in walk(body):
+        if n.get("kind") == "IfStmt":
+            if i == nth:
+                ch = [c for c in strip_comments(n) if c.get("kind") != "DeclStmt"]
+                return ch[0], ch[1], (ch[2] if len(ch) > 2 else None)
+            i += 1
+    raise Broken(f"if #{nth} not found")
+
+
+def if_branch_hashes(site, key):
+    """[hash(then), hash(else)] for a plain `if:N` selector, else None"""
+    m = re.fullmatch(r"if:(\d+)", site.get("select", ""))
+    if not m:
+        return None
+    fn = find_function(clang_docs(site["filter"], key), site)
+    _c, t, e = nth_if(fn, int(m.group(1)))
+    return [chash(t), chash(e) if e is not None else None]
+
+
+def negated_if(site, key, lk):
+    """`if (C) A else B` rewritten as `if (!(C)) B else A`: the condition is the negation of the locked one and
+    the two branches changed places"""
+    m = re.fullmatch(r"if:(\d+)", site.get("select", ""))
+    if not m or not lk.get("branches") or lk["branches"][1] is None:
+        return False
+    fn = find_function(clang_docs(site["filter"], key), site)
+    c, t, e = nth_if(fn, int(m.group(1)))
+    while c.get("kind") in ("ParenExpr", "ExprWithCleanups") and c.get("inner"):
+        c = strip_comments(c)[-1]
+    if not (c.get("kind") == "UnaryOperator" and c.get("opcode") == "!") or e is None:
+        return False
+    x = strip_comments(c)[0]
+    while x.get("kind") == "ParenExpr" and x.get("inner"):
+        x = strip_comments(x)[-1]
+    return chash(x) == lk.get("chash") and [chash(e), chash(t)] == lk["branches"]
+
+
 def embed_index(old, new, idx):
     """old is a subsequence of new (members were only inserted) -> position of old[idx] in new under the
     leftmost embedding; None otherwise"""
@@ -1595,6 +1636,15 @@ def main():
                         return lk["text"]
                 except Broken:
                     pass
+            if lk.get("text"):
+                # `if (C) A else B` became `if (!(C)) B else A`
+                try:
+                    if negated_if(s, key, lk):
+                        SIGNATURES[s["lean"]] = lk["sig"]; ALPHA[s["lean"]] = lk["alpha"]
+                        relocated[s["lean"]] = f"{s.get('select')} condition negated and branches exchanged; locked text kept"
+                        return lk["text"]
+                except Broken:
+                    pass
             if lk.get("locals") is not None:
                 # a sub-expression was pulled out into a new `const` local: read through it
                 try:
@@ -1656,8 +1706,15 @@ def main():
                     chs[st["lean"]] = site_chash(st, key)
                 except Exception:
                     pass
+        brs = {}
+        for st in sites:
+            if status.get(st["lean"]) == "ok":
+                try:
+                    brs[st["lean"]] = if_branch_hashes(st, key)
+                except Exception:
+                    pass
         cur_lock = {k: {"sig": v, "alpha": ALPHA.get(k, ""), "seq": seqs.get(k), "locals": locs.get(k),
-                        "chash": chs.get(k), "text": TEXTS.get(k)}
+                        "chash": chs.get(k), "text": TEXTS.get(k), "branches": brs.get(k)}
                     for k, v in SIGNATURES.items()}
         json.dump(cur_lock, open(lock_path, "w"), indent=0, sort_keys=True)
     else:
